@@ -1218,6 +1218,15 @@ func main() {
 		"only Go's crypto/tls client and x509 verifier; part 3 uses a harness-built ECDSA P-256 CA (cheap signatures), parts 1-2 the RSA CA of mitm.NewAuthority",
 		"bracketed IPv6 without port ([::1]) is counted as a host spelling a client may name (URL host form); reported under its own signature",
 	}
+	// auxiliary race pass: the same kind of thread bodies free-running on the unrewritten tree under -race
+	raceIters := "30"
+	if lib.Tier() == "thorough" {
+		raceIters = "300"
+	}
+	if raceIters == "30" {
+		raceIters = "8"
+	}
+	rep.ReportRaces(lib.RacePass("c06", "racebodies", "c06", raceIters))
 	rep.Finish()
 }
 
